@@ -375,6 +375,9 @@ func filterMerge(ctx stick.Context, val stick.Value, args ...stick.Value) stick.
 		argMap, ok := args[0].(map[string]stick.Value)
 
 		if ok {
+			if outMap == nil {
+				outMap = make(map[string]stick.Value, len(argMap))
+			}
 			for k, v := range argMap {
 				outMap[k] = v
 			}
